@@ -145,7 +145,10 @@ def run(prog: Program, res: Result, tier: str) -> None:
                         "position in the neighbour tuple, not the atom "
                         "identifier atoms[position]: wrong for any "
                         "identifiers other than 0..n", instance=inst2)
-    # dispatcher: decisions of atom_stereo_from_coords
+    # dispatcher: decisions of atom_stereo_from_coords; the perception
+    # functions analysed above return descriptor objects (not geometry)
+    for name, _cls, _want in percep:
+        summ.setdefault(name, K("N"))
     fi, g = analyse(prog, XYZ, "atom_stereo_from_coords",
                     {"atoms": ATOMS, "coords": P1}, summ)
     inst = "atom_stereo_from_coords: dispatch on counts and planarity only"
